@@ -1050,19 +1050,44 @@ def _chain_member_exception(m, ts, handles, f, fld, p):
     from rules.rf5_null import Analyzer
     an = Analyzer(ts.ctx)
     # (1) arming sites
-    for (fname, n) in handles.fields[fld]['creates']:
+    def works_on_member(fname, root, nid, depth):
+        """the pointer `root` (at node nid of fname) is a chain member: a cursor that walks the chain from its head, the
+        callback's own entry, or - for an internal helper that arms the handle of its parameter - that holds at every call"""
         if fld in handles.cb_oneshot.get(fname, set()):
-            continue
+            return None
+        if root is None or root.k != 'ref':
+            return 'arming site in %s is not a chain cursor' % fname
+        if root.refk == 'ParmVarDecl':
+            fn_ = m.funcs[fname]
+            idx = [i for i, prm in enumerate(fn_.params) if prm[3] == root.ref]
+            sites = m.call_sites(fname)
+            if not idx or not fn_.static or not sites or depth >= 3:
+                return 'arming site in %s works on its parameter %s, which any caller may pass' % (fname, root.name)
+            for (caller, cx) in sites:
+                if len(cx.kids) <= 1 + idx[0]:
+                    return 'call of %s in %s has too few arguments' % (fname, caller)
+                r2 = strip(cx.kids[1 + idx[0]])
+                while r2 is not None and r2.k in ('mem', 'idx'):
+                    r2 = strip(r2.kids[0])
+                why = works_on_member(caller, r2, m.node_of(caller, cx), depth + 1)
+                if why:
+                    return why
+            return None
+        if root.refk != 'VarDecl':
+            return 'arming site in %s is not a chain cursor' % fname
+        org = an.origins(fname, nid, root.ref)
+        if not org or not org <= set([head]):
+            return 'arming site in %s works on %s, not only on members of the chain' % (fname, sorted(map(str, org)))
+        return None
+
+    for (fname, n) in handles.fields[fld]['creates']:
         l = strip(n.kids[0])
         root = l
         while root is not None and root.k in ('mem', 'idx'):
             root = strip(root.kids[0])
-        nid = m.node_of(fname, n)
-        if root is None or root.k != 'ref' or root.refk != 'VarDecl':
-            return (False, 'arming site in %s is not a chain cursor' % fname)
-        org = an.origins(fname, nid, root.ref)
-        if not org or not org <= set([head]):
-            return (False, 'arming site in %s works on %s, not only on members of the chain' % (fname, sorted(map(str, org))))
+        why = works_on_member(fname, root, m.node_of(fname, n), 0)
+        if why:
+            return (False, why)
     # (2) identity search + delete on the found path in f
     fn = m.funcs[f]
     g = m.cfg(f)
